@@ -49,7 +49,7 @@ RULE = ("(a) levels: length 0..8 (sometimes 50..300), components drawn from {0, 
         "fixed corner cases. (b) programs: 1-2 origin trees, nested with-blocks (depth <= 3), failing blocks, hand-offs at any point of any "
         "action, chains of <= 4 hops, several ids per action, each used once, bytes/text, continue_task/preserve_context, remote thread "
         "joined at once or at the very end (real concurrency with the origin), file/list destinations; merge orders: both concatenations, "
-        "perfect interleave, 20 (quick) / 500 for the first 100 programs and 12 for the others (thorough) seeded shuffles per program; non-trivial = >= 2 hops or >= 2 ids from one action "
+        "perfect interleave, 20 (quick) / 500 for the first 80 programs and 12 for the others (thorough) seeded shuffles per program; non-trivial = >= 2 hops or >= 2 ids from one action "
         "or a hand-off below depth 1. (c) schedules of 2-4 threads calling one preserved callable (see _once.py). Distinct by canonical hash.")
 TRUSTED = ["uuid4() does not collide and never contains '@' (it is hex digits and dashes)",
            "threading.Thread / contextvars: a new thread starts with an empty eliot context",
@@ -979,7 +979,7 @@ def real_steps(order, index):
 def run_handoffs(ctx):
     rng = ctx.rng("programs")
     mrng = ctx.rng("merges")
-    n = ctx.budget(250, 1500)
+    n = ctx.budget(250, 1200)
     progs = [gen_program(rng, ctx.quick) for _ in range(n)]
     observations = []
     stats = {}
@@ -996,8 +996,8 @@ def run_handoffs(ctx):
         tags = ["hops:%d" % hops, "sides:%d" % min(len(obs["sides"]), 9), "trees:%d" % len(prog["trees"])]
         tags += sorted({"via:" + h[0]["via"] for h in hs} | {"form:" + h[0]["form"] for h in hs} | {"join:" + h[0]["join"] for h in hs}
                        | {"dest:" + s["kind"] for s in obs["sides"]})
-        # thorough: 500 shuffles for the first 100 programs, 12 for the rest (20 min budget; one parse ~ 10 ms)
-        nsh = 20 if ctx.quick else (500 if k < 100 else 12)
+        # thorough: 500 shuffles for the first 80 programs, 12 for the rest (20 min budget; one parse ~ 10 ms)
+        nsh = 20 if ctx.quick else (500 if k < 80 else 12)
         case = dict(kind="program", prog=prog, merge_seed="%s:%d" % (ctx.seed, k), shuffles=nsh)
         ctx.case(case, nontrivial=nt, tags=tags, sample=(len(canon(prog)) < 1500))
         ctx.count("handoffs", n=len(hs))
